@@ -198,25 +198,54 @@
       `Com`, `addRrsetOp_modS`, `comPF_inner`) and on C04's `inner_limit_independent`
       (`signed_run_eq_plain_run_allok`, `stRcode0_scanState`: `set_rcode(NOERROR)` is the identity on
       the scan state).
-      What remains: `C10_row3_compare` (with the two guards as premises) — under the guards the two
-      runs make the same calls with the same results (every call the plain run accepted fits the
-      signed room, since the whole plain result plus R fits; every call the plain run rejected with
-      `Truncation` is rejected by the signed run, which has less room), so the logs, hence the views,
-      coincide.  That two-run simulation over the writer's internals and query.rs (both directions:
-      "accepted in the big room and the result fits the small one ⇒ accepted in the small one" is
-      C04's `Sim`; "rejected with `Truncation` in the big room ⇒ rejected with `Truncation` in the small
-      one" is not yet proved: it needs room-monotonicity of the writer's internals for the outcomes other
-      than `Truncation` — accepted with less room ⇒ accepted with more, same for `InvalidRdata` — plus
-      the PM-level two-run induction that carries C05's `CapPre` to know the signed run's failures are
-      `Truncation` or `InvalidRdata` only; the field insensitivity already covers failures) is one
-      missing piece of `C10_full`.  The other: C12's `finish_decodes_content` does not determine the
-      decoded (expanded) RDATA of types with compressible names (`RMatch` speaks about RDATA only for
-      layouts without one), while the audit compares `rrKey`, RDATA included, of answer and authority
-      records (NS, CNAME, SOA, MX …).  So even from identical runs the clause needs a decoder
-      congruence — two finished messages that agree on every octet except ARCOUNT and what follows the
-      common records decode to the same answer / authority sections (true because the writer emits no
-      pointer below offset 12; `NameDecode.decodes_prefix` covers only prefix extensions) — or a
-      stronger `RMatch`.
+      (b) is done at the model level, modulo ONE named writer-level hypothesis:
+      `ServerContent.signed_handler_eq_plain` (Proofs/ServerSignedPlain.lean) — under the guards of the
+      comparison clause (neither view truncated; a plain SERVFAIL is a signed SERVFAIL; the plain
+      result, when the answering logic succeeds, leaves room for the TSIG record and ARCOUNT below its
+      maximum) the signed run of `handle_non_axfr_query` shows the same view as the plain run: RCODE, AA,
+      TC and all three sections.  No all-calls-accepted hypothesis any more: the plain run may drop
+      optional calls (then the signed run drops the same ones: same log), or fail (then both epilogues
+      leave SERVFAIL, AA clear, no records: `view_handle_err`; a successful answering run never shows
+      RCODE 2: `view_inner_ok`).  When the plain answering logic succeeds, the two final writers agree
+      up to the room, the TSIG slot, ARCOUNT + 1 and the octets at and above the cursor.  It rests on
+        · Proofs/ServerAnswerMono.lean (new): `MonoR` — every writer operation of the answering phase that
+          is accepted, or rejected for a reason other than `Truncation`, has the same outcome and effect
+          with more room (`monoR_addRrsetOp`, `monoR_addRrOp`); hence `addRrsetOp_trunc_down`: rejected
+          with `Truncation` in the big room ⇒ `Truncation` (or a panic) in the small room.  No `CapPre`
+          is needed: monotonicity covers every non-`Truncation` error;
+        · Proofs/ServerAnswerTwoRun.lean (new): `TwoP` — the two-run induction over query.rs
+          (`twoPF_inner`, `inner_two_run`): big-room success that fits the small room ⇒ small-room
+          success with the same log, dropped optional calls included; the relation carried between the
+          runs is `Same` (agreement on everything but the octets at and above the cursor) composed
+          with `lift d`;
+        · the named hypothesis `ServerAnswer.ScratchIndep` (Proofs/ServerAnswerTwoRun.lean), NOT proved:
+          a writer call of the answering phase (`set_aa`, `set_rcode`, `add_rr`, `add_rrset`) run on two
+          states that agree on everything but the octets at and above the cursor (`Same s t`, equal
+          hint vectors) has the same outcome and leaves two such states with equal hint vectors.  It is
+          needed because `with_rollback` restores the cursor and the counts but not the octets: after a
+          dropped optional call the two runs differ in the scratch area above the cursor.
+          `compress_decision s.octets …` is the only reader of the octets and has to be shown to look only
+          below the cursor (the global compression state points below the cursor: writer territory,
+          Proofs/Writer*.lean has the invariant for `CLay` states but no such congruence).
+      What remains of `C10_row3_compare`, precisely:
+      (R1) `ScratchIndep` (above) — one congruence lemma of the writer;
+      (R2) the decoder side: C12's `finish_decodes_content` does not determine the decoded (expanded)
+           RDATA of types with compressible names (`RMatch` speaks about RDATA only for layouts without
+           one), while the audit compares `rrKey`, RDATA included, of answer and authority records (NS,
+           CNAME, SOA, MX …).  So even from identical logs the clause needs `finish_decodes_rdata` — the
+           decoded RDATA is a function of the logged record — or a decoder congruence: two finished
+           messages that agree on every octet below the common cursor except ARCOUNT decode to the same
+           answer / authority sections (true because the writer emits only backward pointers at or
+           above offset 12; `NameDecode.decodes_prefix` covers only prefix extensions);
+      (R3) the assembly, not yet written (glue of the same kind as `C10_audit_authenticated_answer`):
+           from `AuditRun` + `RowAuthAnswer` the signed final writer (`signed_answer_facts_of_run`,
+           `decoded_answer_tsig`) and from `plain_answer_run` the plain one (`answer_final_good`,
+           `decoded_of_good_view'`); the premises of `signed_handler_eq_plain` from the decoded guards
+           (TC / RCODE of a decoding are those of the view: `flags_of_hdrView`; `pb.size` is the plain
+           final cursor and the audit's `need` is `reservedLen`: `auditNeed_eq`, `reserved_of_auth`;
+           ARCOUNT + 1 ≤ 65535 from the size of the message: ≥ 11 octets per record); then equal
+           views + (R2) give equal `rrKey` multisets for answer / authority, and the signed additional
+           section is the plain one plus the TSIG record (`plainRrs` drops OPT and TSIG).
 
   Proved: (a)–(o).  Not proved, precisely:
   (1) `C10_row3` — the one obligation `C10_full` is reduced to (`C10_of_row3`): an authenticated request
